@@ -352,9 +352,17 @@ var _ msgdispatcher.Client = (*MQ)(nil)
 
 // ---- msgstream.Factory (connectivity check only) -----------------------------------------------
 
-type Factory struct{ MQ *MQ }
+type Factory struct {
+	MQ *MQ
+	// OnNewStream, when set, is called for every stream the code under test opens through the factory (the connectivity
+	// check of a channel handler that is being created)
+	OnNewStream func()
+}
 
 func (f *Factory) NewMsgStream(ctx context.Context) (msgstream.MsgStream, error) {
+	if f.OnNewStream != nil {
+		f.OnNewStream()
+	}
 	return &stream{}, nil
 }
 func (f *Factory) NewTtMsgStream(ctx context.Context) (msgstream.MsgStream, error) {
